@@ -1205,6 +1205,22 @@ fn c08_instances(thorough: bool) -> Vec<SchedSpec> {
             }
         }
     }
+    // small filter groups: a blob switch folds the outgoing blob's filters into its group's, which
+    // decides whether later lookups visit the group at all; keys on both sides of the group's range
+    for mode in [IoMode::Inplace, IoMode::Background] {
+        for (cname, clients) in [
+            ("W0;W2;Rot;R2|R0", vec![vec![COp::w(0, 10), COp::w(2, 11), COp::M(Op::Rot), COp::R(2)], vec![COp::R(0)]]),
+            ("W0;W2|Rot;R2", vec![vec![COp::w(0, 10), COp::w(2, 11)], vec![COp::M(Op::Rot), COp::R(2)]]),
+        ] {
+            let mut clients = clients;
+            stamp_ts(&mut clients);
+            let mut s = SchedSpec::new(&format!("C08/life/groups/{mode:?}/{cname}"), mode, vec![Op::w(1, 1), Op::Rot], clients);
+            s.wcfg.group_size = 2;
+            s.keys = vec![0, 1, 2];
+            s.followup = vec![COp::M(Op::Rot), COp::R(0), COp::R(2), COp::RA(2)];
+            specs.push(s);
+        }
+    }
     // background sync in play (tiny dirty-byte limit): the fsync task holds the shared storage lock
     // while a close / rotation asks for it exclusively
     for mode in [IoMode::Inplace, IoMode::Background] {
